@@ -101,3 +101,34 @@ def expected_image(points_bp, weights, kernel, geom):
         per_point.append(one)
         img += w * one
     return img, per_point
+
+
+def _norm_mass_vec(lo, hi, m, s):
+    """vectorised norm_mass: lo, hi (P,), m (n,) -> (n, P), each entry computed on its cancellation-free side"""
+    a = (lo[None, :] - m[:, None]) / s
+    b = (hi[None, :] - m[:, None]) / s
+    return np.where(a >= 0, ndtr(-a) - ndtr(-b), ndtr(b) - ndtr(a))
+
+
+def expected_image_separable(points_bp, weights, kernel, geom):
+    """the same definition as expected_image for kernels that factor over the two axes (uncorrelated Gaussian, uniform box,
+    logistic product), vectorised over the points so that diagrams of many thousand pairs can be judged"""
+    nb, npx = geom["nb"], geom["np"]
+    be = np.array(pixel_edges(geom["b0"], geom["ps"], nb)); pe = np.array(pixel_edges(geom["p0"], geom["ps"], npx))
+    P = np.asarray(points_bp, float).reshape(-1, 2)
+    w = np.asarray(weights, float)
+    kind = kernel["kind"]
+    if kind == "uniform":
+        wx, hy = kernel["width"], kernel["height"]
+        mb = np.maximum(0.0, np.minimum(be[None, 1:], P[:, 0:1] + wx / 2) - np.maximum(be[None, :-1], P[:, 0:1] - wx / 2)) / wx
+        mp = np.maximum(0.0, np.minimum(pe[None, 1:], P[:, 1:2] + hy / 2) - np.maximum(pe[None, :-1], P[:, 1:2] - hy / 2)) / hy
+    elif kind == "logistic":
+        f = lambda z, m: 0.5 * (1 + np.tanh(0.5 * (z[None, :] - m[:, None]) / kernel["s"]))
+        mb = f(be[1:], P[:, 0]) - f(be[:-1], P[:, 0]); mp = f(pe[1:], P[:, 1]) - f(pe[:-1], P[:, 1])
+    else:
+        cov = kernel["cov"]
+        if cov[0][1] != 0.0:
+            raise ValueError("not separable")
+        mb = _norm_mass_vec(be[:-1], be[1:], P[:, 0], math.sqrt(cov[0][0]))
+        mp = _norm_mass_vec(pe[:-1], pe[1:], P[:, 1], math.sqrt(cov[1][1]))
+    return mb.T @ (w[:, None] * mp)
